@@ -662,6 +662,271 @@ def live_sun(chk, fc):
                'month, day, second) and agrees with the %s to %s' % (refname, tol),
                mismatches=bad, branches=branches)
 
+# ----------------------------------------------------------------------------- round 4: routes, histories, circumstances
+SITES4 = [('52.0', '15.0', '1.0'), ('-35.0', '150.0', '10.0'), ('38.72', '-9.14', '0.0'), ('28.6', '77.2', '5.5'),
+          ('47.6', '-52.7', '-3.5'), ('-17.5', '-149.6', '-10.0'), ('64.13', '-21.9', '0.0')]
+
+
+def routes_and_histories(chk):
+    """The parts of C12 that hold on the unchanged tree, judged at EVERY solarangles call of real runs (u3_util.SunMonitor):
+    (a) the site handed to the sun-position routine is the LOCATION line of the rural file in force and the zenith is
+    the routine's own value for that site and the clock; (b) the date of the sun is the date of the forcing row.
+    Explored: which route built the model, what the dictionary / the object went through before, what the command
+    line offers - none of which is an input of the sun position. Silent about the recorded deviation (the zenith is
+    compared with the routine itself, not with astronomy)."""
+    import generic as G
+    import uwgutil as UU
+    import u3_util as U3
+    rng = chk.rng
+    quick = chk.tier == 'quick'
+    uwg = UU.uwg_mod()
+    work = os.path.join(chk.work(), 'routes12')
+    os.makedirs(work, exist_ok=True)
+    src = U3.load_rows(UU.rp(UU.EPW_SGP))
+    sa, sb = rng.sample(SITES4, 2)
+    fa = U3.site_file(src, sa[0], sa[1], sa[2], os.path.join(work, 'siteA.epw'), city='A')
+    fb = U3.site_file(src, sb[0], sb[1], sb[2], os.path.join(work, 'siteB.epw'), city='B')
+    month, day = rng.choice([(6, 21), (12, 21), (3, 1), (2, 28), (9, 30), (12, 31), (1, 1)])
+    params = dict(bldheight=10, blddensity=0.5, vertohor=0.8, grasscover=0.1, treecover=0.1, zone='1A', month=month,
+                  day=day, nday=1, dtsim=300, bld=[('largeoffice', 'pst80', 0.6), ('midriseapartment', 'new', 0.4)])
+    case0 = {'site_A(lat,lon,zone)': sa, 'site_B(lat,lon,zone)': sb, 'month': month, 'day': day, 'nday': 1, 'dtsim': 300,
+             'rows': 'those of the shipped Singapore file'}
+    nbad = [0]
+    br = {}
+
+    def bad(what, case, observed, expected):
+        nbad[0] += 1
+        if nbad[0] <= 4:
+            chk.violation('impl-violation', what, case=dict(case0, **case), observed=observed, expected=expected)
+
+    def judge(label, r, ref=None, route_case=None):
+        br[label.split(':')[0]] = br.get(label.split(':')[0], 0) + 1
+        case = dict(route_case or {}, scenario=label, rural_file_in_force='site B')
+        mon = r['monitors'].get('sun', {})
+        for pr in mon.get('problems', [])[:1]:
+            bad('sun position inside a real run (%s)' % label, case, pr,
+                'site = LOCATION line of the rural file in force; date of the sun = date of the forcing row')
+        if r.get('error') or r.get('rc'):
+            bad('run refused / failed (%s)' % label, case, '%s %s' % (r.get('error', r.get('rc')), r.get('error_msg', '')),
+                'simulated like the model set up directly for the file')
+            return
+        if not mon.get('problems') and mon.get('counts', {}).get('calls', 0) == 0:
+            bad('no sun-position call seen (%s)' % label, case, str(mon.get('counts')), 'daylight steps')
+        if ref is not None and r.get('site') is not None and tuple(r['site']) != tuple(float(x) for x in sb):
+            bad('site of the model (%s)' % label, case, str(r['site']), 'LOCATION line of site B %s' % (sb,))
+        if ref is not None and r.get('hash') != ref['hash']:
+            fd = G.first_diff(r.get('records') or [], ref['records']) if r.get('records') else None
+            bad('result differs from the model set up directly for the rural file in force (%s)' % label, case,
+                'written file %s%s' % (str(r.get('hash'))[:12], '' if not fd else '; first differing record %s: %r' % (fd[0], fd[1])),
+                'written file %s%s' % (ref['hash'][:12], '' if not fd else ': %r' % (fd[2],)))
+
+    # ---- reference: parameters -> dictionary -> model directly for file B
+    fresh = uwg.UWG.from_param_args(**params)
+    d0 = fresh.to_dict()
+    ref = U3.run_scenario(d0, fb, work, 'ref.epw', monitors=('sun',))
+    judge('from_dict(fresh dictionary)', ref, None)
+    # ---- the dictionary at every stage of a donor's life (donor generated for ANOTHER site)
+    donor = uwg.UWG.from_param_args(epw_path=fa, new_epw_dir=work, new_epw_name='donor.epw', **params)
+    stages = [('fresh donor', lambda: None), ('donor after generate()', donor.generate),
+              ('donor after simulate()', donor.simulate), ('donor after write_epw()', donor.write_epw)]
+    dicts = []
+    dict_diffs = []
+    for sname, op in stages:
+        with core.quiet():
+            op()
+        d = donor.to_dict()
+        dicts.append((sname, d))
+        dict_diffs.append((sname, d, G.where_differs(d0, d)))
+        br['to_dict'] = br.get('to_dict', 0) + 1
+        w = G.where_differs(d0, d)
+        if w and not any(x[0] != sname and x[2] for x in dict_diffs):
+            bad('to_dict() depends on what the model has been through (%s)' % sname,
+                {'stage': sname, 'donor_rural_file': 'site A'}, w,
+                'the dictionary of a model is a function of its parameters: equal to the one taken before generate()')
+    derived = {k: v for k, v in vars(donor).items() if not k.startswith('_') and k not in d0
+               and (isinstance(v, (int, float, str, bool)) or v is None)}
+    derived.update(site=[donor.lat, donor.lon, donor.gmt], epw_path=fa, location=sa)
+    dicts.append(('hand-written dictionary with keys named like derived attributes of a generated model (%s)'
+                  % ', '.join(sorted(derived)[:12]), dict(d0, **json.loads(json.dumps(derived, default=str)))))
+    jsons = {}
+    for i, (sname, d) in enumerate(dicts):
+        dj = json.loads(json.dumps(d))
+        jsons[sname] = dj
+        if quick and i in (0, 2):          # quick tier: after generate(), after write_epw(), derived keys
+            continue
+        r = U3.run_scenario(dj, fb, work, 'h%d.epw' % i, monitors=('sun',))
+        judge('from_dict(JSON of the dictionary of a %s)' % sname if i < 4 else 'from_dict(%s)' % sname, r, ref,
+              {'dictionary_from': sname, 'extra_keys': sorted(set(dj) - set(d0))})
+    # ---- other library routes to the same parameters on file B
+    def lib_run(label, build):
+        import s2_util as S2
+        out = {'error': None, 'monitors': {}}
+        with U3.Patch() as p:
+            mon = U3.SunMonitor(p)
+            try:
+                m = build(mon)
+                with core.quiet():
+                    m.simulate()
+                    m.write_epw()
+                out.update(records=U3.records_list(m), hash=G.file_hash(m.new_epw_path), site=[m.lat, m.lon, m.gmt])
+            except Exception as e:  # noqa: BLE001
+                out.update(error=type(e).__name__, error_msg=str(e)[:160])
+            out['monitors']['sun'] = mon.result()
+        return out
+
+    def route_kwargs(mon):
+        m = uwg.UWG.from_param_args(epw_path=fb, new_epw_dir=work, new_epw_name='kw.epw', **params)
+        with core.quiet():
+            m.generate()
+        mon.register(m, fb)
+        return m
+
+    def route_refile(mon):
+        m = uwg.UWG.from_param_args(epw_path=fa, new_epw_dir=work, new_epw_name='refile.epw', **params)
+        with core.quiet():
+            m.generate()
+            mon.register(m, fa)
+            if rng.random() < 0.5:
+                m.simulate()
+            m.epw_path = fb
+            m.generate()
+        mon.by_forc.clear()
+        mon.register(m, fb)
+        return m
+
+    def route_redate(mon):
+        m = uwg.UWG.from_param_args(epw_path=fb, new_epw_dir=work, new_epw_name='redate.epw',
+                                    **dict(params, month=(month + 5) % 12 + 1, day=min(day, 28)))
+        with core.quiet():
+            m.generate()
+            m.month, m.day = month, day
+            m.generate()
+        mon.register(m, fb)
+        return m
+    judge('from_param_args', lib_run('kwargs', route_kwargs), ref)
+    judge('generated for site A [simulated], epw_path = file B, generate() again', lib_run('refile', route_refile), ref)
+    judge('start date assigned after generate(), generate() again', lib_run('redate', route_redate), ref)
+
+    # a start date assigned after generate() WITHOUT generating again: whatever date the run then has, sun and rows agree
+    def route_stale(mon):
+        m = uwg.UWG.from_param_args(epw_path=fb, new_epw_dir=work, new_epw_name='stale.epw', **params)
+        with core.quiet():
+            m.generate()
+        m.month, m.day = (month + 5) % 12 + 1, min(day, 28)
+        mon.register(m, fb)
+        return m
+    judge('start date assigned after generate(), no second generate()', lib_run('stale', route_stale), None)
+    # ---- the command line: the same dictionaries, the shipped parameter file, and everything else it offers
+    jp = os.path.join(work, 'fresh.json')
+    with open(jp, 'w') as f:
+        json.dump(jsons['fresh donor'], f)
+    for i, sname in enumerate(['donor after generate()'] if quick else list(jsons)):
+        pth = os.path.join(work, 'cli%d.json' % i)
+        with open(pth, 'w') as f:
+            json.dump(jsons[sname], f)
+        r = U3.child_call(work, 'cli%d' % i, 'cli_scenario', epw=fb, monitors=['sun'], outfile=os.path.join(work, 'cli%d.epw' % i),
+                          args=['simulate', 'model', pth, fb, '--new-epw-dir', work, '--new-epw-name', 'cli%d.epw' % i])
+        judge('uwg simulate model <JSON of the dictionary of a %s>' % sname, r, ref, {'dictionary_from': sname})
+    rc, path, err = G.cli_simulate_model(jsons['donor after simulate()'], fb, os.path.join(work, 'realcli'), name='real.epw')
+    judge('python -m uwg simulate model (real subprocess, dictionary of a donor after simulate())',
+          {'rc': rc, 'hash': G.file_hash(path) if path else None, 'monitors': {'sun': {'counts': {'calls': 1}}},
+           'error_msg': err[-200:]}, ref)
+    import s3_util as S3
+    pf = S3.write_param_file(UU.rp(UU.PARAM_SGP), os.path.join(work, 'oneday.uwg'),
+                             {'nday': '1', 'month': str(month), 'day': str(day)})
+    pm = uwg.UWG.from_param_file(pf, epw_path=fb, new_epw_dir=work, new_epw_name='pf.epw')
+
+    def route_param(mon):
+        with core.quiet():
+            pm.generate()
+        mon.register(pm, fb)
+        return pm
+    pref = lib_run('param', route_param)
+    judge('from_param_file(shipped .uwg with the start date and nDay = 1)', pref, None)
+    r = U3.child_call(work, 'clip', 'cli_scenario', epw=fb, monitors=['sun'], outfile=os.path.join(work, 'clip.epw'),
+                      args=['simulate', 'param', pf, fb, '--new-epw-dir', work, '--new-epw-name', 'clip.epw'])
+    judge('uwg simulate param <shipped .uwg>', r, pref)
+    # what else does the command line offer? (options without a counterpart among the library calls)
+    surf = U3.child_call(work, 'surface', 'cli_surface')
+    extra_cmds = sorted(set(surf) - set(U3.CLI_OPTIONS))
+    explored = 0
+    for cmd, prms in sorted(surf.items()):
+        known = U3.CLI_OPTIONS.get(cmd)
+        for ent in prms:
+            if ent['kind'] != 'option' or known is None or any(nm in known for nm in ent['names']):
+                continue
+            if cmd not in ('uwg simulate model', 'uwg simulate param'):
+                chk.notes.append('command line: option %s of `%s` has no counterpart in the unchanged tree (not explored)'
+                                 % (ent['names'], cmd))
+                continue
+            base_args = (['simulate', 'model', jp, fb] if cmd.endswith('model') else ['simulate', 'param', pf, fb])
+            base_ref = ref if cmd.endswith('model') else pref
+            for k, member in enumerate(U3.option_members(ent)):
+                explored += 1
+                nm = 'opt%d_%d.epw' % (explored, k)
+                r = U3.child_call(work, 'opt%d' % explored, 'cli_scenario', epw=fb, monitors=['sun'],
+                                  outfile=os.path.join(work, nm),
+                                  args=base_args + ['--new-epw-dir', work, '--new-epw-name', nm] + member)
+                lab = '`%s %s`: an option the library calls have no counterpart for' % (cmd, ' '.join(member))
+                br['cli-only option'] = br.get('cli-only option', 0) + 1
+                mon = r['monitors'].get('sun', {})
+                for pr in mon.get('problems', [])[:1]:
+                    bad('sun position inside a run started with ' + lab, {'command': cmd, 'option': member,
+                                                                          'declared_type': ent}, pr,
+                        'site = LOCATION line of the rural file in force; date of the sun = date of the forcing row')
+                if r['rc'] == 0 and not mon.get('problems') and r.get('hash') != base_ref['hash']:
+                    bad('the command line produces a result no library call produces: ' + lab,
+                        {'command': cmd, 'option': member, 'declared_type': ent},
+                        'exit 0, written file %s' % str(r.get('hash'))[:12],
+                        'the file of the library calls on the same model and rural file (%s)' % base_ref['hash'][:12])
+    if extra_cmds:
+        chk.notes.append('command line offers commands unknown to the unchanged tree: %s' % extra_cmds)
+    chk.direct('sun-site-and-date(routes x dictionary histories x command line)', sum(br.values()), sum(br.values()),
+               'real 1-day runs (dtsim 300; rows of the Singapore file under two synthetic LOCATION lines A, B drawn from 7 '
+               'sites; start drawn from 6/21, 12/21, 3/1, 2/28, 9/30, 12/31, 1/1) on rural file B with every solarangles '
+               'call judged: site in force == LOCATION line of B, zenith bit-identical to the routine stand-alone for '
+               '(B; clock), forcing in force (dir, dif, T, p, infra) == the rural row stamped with the clock\'s date and '
+               'hour. Routes: from_dict of a fresh dictionary; from_dict of the JSON of to_dict() of a DONOR model for '
+               'site A taken fresh / after generate() / after simulate() / after write_epw() (and: to_dict() equal at all '
+               'stages); a dictionary with extra keys named like every derived scalar attribute of a generated model '
+               '(lat, lon, gmt, nSoil, site, epw_path ...); from_param_args; an object generated [and simulated] for A, '
+               'then epw_path = B and generate(); start date assigned after generate() with and without a second '
+               'generate(); from_param_file; `uwg simulate model` / `uwg simulate param` executed inside a monitored child '
+               'and as a real subprocess; every option the command line declares beyond those of the unchanged tree, '
+               'with members drawn from its declared click type. All routes with equal parameters give the file of '
+               'the model set up directly for B',
+               mismatches=nbad[0], branches=br)
+    chk.measurements['cli_surface'] = {k: [e['names'] for e in v if e['kind'] == 'option'] for k, v in surf.items()}
+
+    # ---- [3] python -O at kernel level
+    probs, nk = U3.kernel_verdict_problems(chk, 'C12', epw=fb)
+    for lab, obs, exp in probs[:2]:
+        chk.violation('impl-violation', 'kernel call under python -O / verdict of a refusal: ' + lab, case={'call': lab},
+                      observed=obs, expected=exp)
+    chk.direct('kernel-calls-under-python-O(solarangles, generate, SimParam, _read_epw)', nk, nk,
+               'circumstance [3]: solarangles (two sites), _read_epw of file B, SimParam, and the refusals of the unchanged '
+               'tree (month 13, aspect 0, generate() without a rural file, dt 7) in this process and in a fresh '
+               'interpreter under python -O: identical outcomes bit for bit, each refusal of the same class',
+               mismatches=len(probs))
+
+    # ---- [1]-[6] on one live scenario
+    data = json.loads(json.dumps(d0))
+    nbd = U3.default_data(month=(month % 12) + 1, day=5)
+    res, probs = U3.live_circumstances(chk, data, fb, ('sun',), 'live12', neighbour=(nbd, fa))
+    for circ, obs, exp in probs[:3]:
+        chk.violation('impl-violation', 'sun position in a live run under a circumstance that must not matter: ' + circ,
+                      case=dict(case0, circumstance=circ, rural_file_in_force='site B', neighbour_model='site A'),
+                      observed=obs, expected=exp)
+    chk.direct('live-run-under-circumstances(sun monitor)', res['plain']['monitors']['sun']['counts'].get('calls', 0),
+               len(res),
+               'the run on file B with the sun monitor, repeated [1] rendered after construction / generate() / every 41st '
+               'step / at the end, [2] under DEBUG logging, [3] under python -O, [4] through the command line (real '
+               'subprocess and monitored child), [5] with a model for ANOTHER site (file A) generated and simulated '
+               'between generate() and simulate(), [6] caller\'s dictionary compared before / after: records, written '
+               'file and verdict equal the plain run, site and date oracles hold everywhere',
+               mismatches=len(probs), branches={k: 1 for k in res})
+
+
 
 def _next_day(mo, dy):
     return (mo, dy + 1) if dy < MDAYS[mo - 1] else (mo % 12 + 1, 1)
@@ -736,6 +1001,7 @@ def run(chk):
     npts, differs, unexplained, first_unexpl = float_measure(chk, fc, sites)
     epw_measure(chk, fc)
     live_sun(chk, fc)
+    routes_and_histories(chk)
 
     if not bad_impl:
         verdict = 'known-finding'
